@@ -24,6 +24,7 @@ import PdshVerif.Relay.TailLemmas
 import PdshVerif.Relay.LabelLemmas
 import PdshVerif.Relay.Interleave
 import PdshVerif.Relay.Simulation
+import PdshVerif.Relay.IndexSim
 
 namespace PdshVerif.C06
 open PdshVerif.Relay
@@ -177,17 +178,33 @@ theorem records_atomic_any_schedule (cfg : Cfg) (hfix : cfg.tailSplit = false) (
   rw [global_stream_is_runStream fifoOps cfg names b0 evs k script hk]
   exact records_atomic_partial cfg hfix (names k.1) (names 0) (strmNo k) (!k.2) hm1 hm2 hb0 script hdom
 
-/-- TRANSFER to the index-level relay under the buffer-level obligations of
-    Relay/Simulation.lean (property C13, not proved here; see C05.relay_lossless_index) -/
-theorem records_atomic_partial_index {R : Cbuf.Cbuf → PBuf → Prop} (hsim : Sim indexOps fifoOps R)
-    (cfg : Cfg) (hfix : cfg.tailSplit = false) (host t0host : Bytes) (strm : Nat) (readRc : Bool)
-    {sizeMeta : Nat} (hm1 : 1 ≤ sizeMeta) (hm2 : sizeMeta ≤ 800) {a0 : Cbuf.Cbuf} {b0 : PBuf}
-    (hb0 : mkFifoBuf sizeMeta = some b0) (hR : R a0 b0) (script : List Bytes)
+/-- the same for the INDEX-LEVEL relay (the instance run against the real cbuf.c),
+    unconditionally: it simulates the FIFO+policy instance (`Relay.idx_sim`) -/
+theorem records_atomic_partial_index (cfg : Cfg) (hfix : cfg.tailSplit = false) (host t0host : Bytes)
+    (strm : Nat) (readRc : Bool) {sizeMeta : Nat} (hm1 : 1 ≤ sizeMeta) (hm2 : sizeMeta ≤ 800)
+    {a0 : Cbuf.Cbuf} (ha0 : mkIndexBuf sizeMeta = some a0) (script : List Bytes)
     (hdom : Spec.Dom05 (markerOf readRc) script.flatten = true) :
     Spec.c06Ok (pfx cfg host) script.flatten
       ((runStream indexOps cfg host t0host strm readRc a0 script).ems.map Em.bytes) = true := by
-  rw [(runStream_sim hsim cfg host t0host strm readRc a0 b0 hR script).1]
+  obtain ⟨b0, hb0⟩ := mkFifoBuf_some sizeMeta
+  rw [(runStream_index_eq_fifo cfg host t0host strm readRc (by omega) ha0 hb0 script).1]
   exact records_atomic_partial cfg hfix host t0host strm readRc hm1 hm2 hb0 script hdom
+
+/-- index-level relay, many hosts, every schedule: the global sequence of stdio calls is a
+    shuffle of the per-stream sequences, each consisting of whole records of its host -/
+theorem records_atomic_index_any_schedule (cfg : Cfg) (hfix : cfg.tailSplit = false) (names : Nat → Bytes)
+    {sizeMeta : Nat} (hm1 : 1 ≤ sizeMeta) (hm2 : sizeMeta ≤ 800) {a0 : Cbuf.Cbuf}
+    (ha0 : mkIndexBuf sizeMeta = some a0) (evs : List (Key × LEv)) :
+    LogOk (evs.foldl (gstep indexOps cfg names) (ginit a0)) ∧
+    ∀ (k : Key) (script : List Bytes),
+      (evs.filter (fun e => e.1 = k)).map (·.2) = script.map LEv.feed ++ [LEv.finish] →
+      Spec.Dom05 (markerOf (!k.2)) script.flatten = true →
+      Spec.c06Ok (pfx cfg (names k.1)) script.flatten
+        ((logOf (evs.foldl (gstep indexOps cfg names) (ginit a0)) k).map Em.bytes) = true := by
+  refine ⟨log_is_shuffle indexOps cfg names evs (ginit a0) (by intro k; simp [logOf, ginit]), ?_⟩
+  intro k script hk hdom
+  rw [global_stream_is_runStream indexOps cfg names a0 evs k script hk]
+  exact records_atomic_partial_index cfg hfix (names k.1) (names 0) (strmNo k) (!k.2) hm1 hm2 ha0 script hdom
 
 /-! ### non-vacuity -/
 
